@@ -166,7 +166,19 @@ pub fn pools(ctx: &Ctx, rng: &mut Rng, atoms_sets: &[(&str, &[&str])]) -> Pools 
         adversarial.push((name.to_string(), p));
     }
     let n = if quick { 400 } else { 6000 };
-    let random = (0..n).map(|_| gen::random_list(rng, &["a", "b", "c", "1", " ", "."])).collect();
+    let mut random: Vec<Vec<String>> = (0..n).map(|_| gen::random_list(rng, &["a", "b", "c", "1", " ", "."])).collect();
+    // repeat-count families: the same unit repeated k and k+1 (k+2) times inside a common frame gives
+    // {n} and, through the trie, {m,n} quantifiers on single characters and on groups
+    let per = gen::periodic_words();
+    random.extend(gen::sample_subsets(rng, &per, 3, if quick { 150 } else { 1500 }));
+    for unit in gen::REPEAT_UNITS {
+        for k in 1..=3usize {
+            for (pre, suf) in [("", ""), ("x", ""), ("", "c"), ("x", "yz")] {
+                random.push(vec![format!("{}{}{}", pre, unit.repeat(k), suf), format!("{}{}{}", pre, unit.repeat(k + 1), suf)]);
+                random.push(vec![format!("{}{}{}", pre, unit.repeat(k + 1), suf), format!("{}{}{}", pre, unit.repeat(k + 2), suf), format!("{}q", pre)]);
+            }
+        }
+    }
     Pools { ab, abc, adversarial, random, exhaustive_ab: ex }
 }
 
